@@ -1,7 +1,7 @@
 (* C16 — correspondence: the harness records what the real codecs did on generated documents / keys. *)
 From Coq Require Import List String Ascii ZArith NArith Bool.
 Import ListNotations.
-From VF Require Export C16.Model C16.ModelT.
+From VF Require Export C16.Model C16.ModelT C16.ModelJ.
 
 (* model output against observed output: Go prints a float64 with the shortest digits that read back to it,
    so an observed number stands for its float64 value *)
@@ -83,7 +83,12 @@ Definition check_case (c : case) : bool :=
   match c with
   | CVC inp out => ojeq (roundtrip_vc Fixed inp) out
   | CVP inp out => ojeq (roundtrip_vp Fixed [] inp) out
-  | CVPE env inp out => ojeq (option_map norm_vp (roundtrip_vp Fixed env inp)) (option_map norm_vp out)
+  | CVPE env inp out =>
+      (* the model finds the compact JWS among the strings itself (jws_payload: dots, base64url, JSON objects) and reads
+         _sd_alg from the vc claim; what the jose code decided (env, from the harness) must agree with it *)
+      let env' := model_env inp in
+      forallb (fun e => match env_get env' (fst e) with Some b => Bool.eqb b (snd e) | None => false end) env &&
+      ojeq (option_map norm_vp (roundtrip_vp_self Fixed inp)) (option_map norm_vp out)
   | CJWT inp minimize secs fmt iss sub jti nbf iat exp vcclaim rebuilt =>
       match parse_vc Fixed inp with
       | Some v =>
